@@ -19,19 +19,20 @@ LEVEL_TEXT = ('static analysis: (D1) region_depth_count interpreted on one read 
               ' from params.py) when depth is 0; the pileup path gives depth = basecount / span on rows with span > 0 and 0 elsewhere, log2 = -20'
               " <=> depth = 0, gene filled with '-'; (D3) bedcov passes -Q <min_mapq> to samtools <=> min_mapq > 0 (and --reference iff a FASTA "
               'is given), raising on empty output; (D4) detect_bedcov_columns maps 3 / 4 / more tab-separated input columns to names with '
-              'basecount last, fewer is an error; both algorithms emit (chromosome, start, end, gene) unchanged; (D5) both fan-outs use '
-              'Executor.map; interval_coverages_count and interval_coverages_pileup are interpreted for 1 and 3 processes with the pool stubbed '
-              '(map = apply in submission order): every bin reaches region_depth_count / every chunk reaches bedcov in file order with the '
-              "caller's min_mapq, alignment file and reference, the yielded rows are the worker's (a bin of a read-less contig may be answered "
-              'without a fetch only with depth 0 / log2 -20), and the pileup rows come back in file order; BED names reach the count path whole '
-              '(C08 rule); pileup rows keep their own names also when the regions file is not in genomic order; (D7) after ensure_bam_index the '
-              'index htslib opens first (X.bam.bai before X.bai) is never older than the alignment file (file model with modification times); '
-              'to_chunks -- interpreted exhaustively for chunk sizes 1..3 and every line count 0..3c+1, with comment lines -- yields every non-'
-              'comment line exactly once, in order, in closed files of at most chunk_size lines. (CLI) the `coverage` command line(s), through a '
-              'model of argparse built from the declarations in commands.py and the real _cmd_ body interpreted with readers, library step and '
-              'writers stubbed: BAM and regions in their roles, -c, -q, -p, -f reach do_coverage as given; the default output name is '
-              '<bam>.(anti)targetcoverage.cnn. Does not decide that the number of aligned bases is what samtools reports, nor equality of the two'
-              " algorithms on real reads (bedcov's own flag filter is trusted).")
+              'basecount last, fewer is an error; the count branch of interval_coverages, interpreted, turns each (chrom, start, end, gene, log2,'
+              ' depth) tuple into a row under those column names; a bin running past the end of its contig is still divided by its own length '
+              '(BAM stub with a contig length); (D5) both fan-outs use Executor.map; interval_coverages_count and interval_coverages_pileup are '
+              'interpreted for 1 and 3 processes with the pool stubbed (map = apply in submission order): every bin reaches region_depth_count / '
+              "every chunk reaches bedcov in file order with the caller's min_mapq, alignment file and reference, the yielded rows are the "
+              "worker's (a bin of a read-less contig may be answered without a fetch only with depth 0 / log2 -20), and the pileup rows come back"
+              ' in file order; BED names reach the count path whole (C08 rule); pileup rows keep their own names also when the regions file is '
+              'not in genomic order; (D7) after ensure_bam_index the index htslib opens first (X.bam.bai before X.bai) is never older than the '
+              'alignment file (file model with modification times); to_chunks -- interpreted exhaustively for chunk sizes 1..3 and every line '
+              'count 0..3c+1, with comment lines -- yields every non-comment line exactly once, in order, in closed files of at most chunk_size '
+              'lines. (CLI) the `coverage` command line(s), through a model of argparse built from the declarations in commands.py and the real '
+              '_cmd_ body interpreted with readers, library step and writers stubbed: BAM and regions in their roles, -c, -q, -p, -f reach '
+              'do_coverage as given; the default output name is <bam>.(anti)targetcoverage.cnn. Does not decide that the number of aligned bases '
+              "is what samtools reports, nor equality of the two algorithms on real reads (bedcov's own flag filter is trusted).")
 TECHNIQUE = ('abstract interpretation of the read filter / depth arithmetic over finite flag and order domains; registry of the samtools '
              'arguments; ordered fan-out rule; interpretation of the serial and parallel drivers with a pool stub; small-scope exhaustive '
              'interpretation of the chunker')
